@@ -23,6 +23,7 @@ import (
 	"sync"
 	"testing"
 	"testing/synctest"
+	"time"
 	"unicode/utf8"
 
 	"github.com/inspirer/textmapper/compiler"
@@ -154,6 +155,11 @@ func (y *yard) hook(msg jsonrpc2.Message) {
 	default:
 		key = fmt.Sprintf("other:%T", msg)
 	}
+	y.park(key)
+}
+
+// park blocks the calling goroutine (holding no lock) until the simulator releases it.
+func (y *yard) park(key string) {
 	y.mu.Lock()
 	if y.free {
 		y.mu.Unlock()
@@ -164,6 +170,27 @@ func (y *yard) hook(msg jsonrpc2.Message) {
 	y.parked = append(y.parked, p)
 	y.mu.Unlock()
 	<-p.rel
+}
+
+// yieldCtx wraps the context of one request (installed through the scratch copy of
+// jsonrpc2.CancelHandler). Each Done() call — i.e. each cancellation poll of the tm
+// parser running inside the handler body — is a yield point: the handler parks and the
+// simulator may deliver more client bytes (for instance the $/cancelRequest aimed at this
+// very request) before letting it look at the channel. This is how a cancellation lands
+// in the MIDDLE of a handler body, at exactly the instants at which the body can observe it.
+type yieldCtx struct {
+	context.Context
+	id string
+	y  *yard
+}
+
+func (c yieldCtx) Done() <-chan struct{} {
+	c.y.park("poll:" + c.id)
+	return c.Context.Done()
+}
+
+func (y *yard) wrapCtx(ctx context.Context, id jsonrpc2.ID) context.Context {
+	return yieldCtx{Context: ctx, id: fmt.Sprint(id), y: y}
 }
 
 // snapshot returns the parked writers in a canonical order (by key), so that the tape
@@ -517,6 +544,9 @@ var parseLines = []string{
 	"set1: set(ident | num)+ ;",
 	"/* π😀 */ item3: /* ж */ ident /* → */ num ;",
 	"'π' : ;",
+	"bad1: ident '😀😀z' num ;",
+	"bad2: \"é😀\" '𝒳' ident ;",
+	"/* 日本 */ bad3: '😀' '😀😀' ;",
 	"%generate afterIdent = set(follow ident);",
 }
 
@@ -637,6 +667,16 @@ func genDoc(src *sim.Src, prev string) string {
 			}
 		}
 	}
+	if f.Chance(1, 6) && len(text) > 0 && len(text) < 4<<10 {
+		// long documents: the parser polls its context every few hundred tokens
+		lines := strings.SplitAfter(text, "\n")
+		for len(text) < 5<<10 {
+			text += lines[f.Draw(len(lines))]
+			if !strings.HasSuffix(text, "\n") {
+				text += "\n"
+			}
+		}
+	}
 	if len(text) > 6<<10 {
 		text = text[:6<<10]
 		for !utf8.ValidString(text) {
@@ -686,6 +726,12 @@ func genScript(src *sim.Src) *script {
 	}
 	uris := []string{"file:///ws0/a.tm", "file:///ws0/dir/b.tm", "file:///ws0/%D0%B6.tm"}
 	nuris := 1 + src.Draw(3)
+	if src.Chance(1, 8) {
+		// documents of other schemes that share their path with a file document (an
+		// editor's diff view, a virtual file system): different documents all the same
+		uris = []string{"file:///ws0/a.tm", "git:/ws0/a.tm?%7Bref%3AHEAD%7D", "vscode-vfs://github/ws0/a.tm", "vscode-vfs://gitlab/ws0/a.tm"}
+		nuris = 2 + src.Draw(3)
+	}
 	add := func(o *op) {
 		o.build()
 		sc.ops = append(sc.ops, o)
@@ -876,6 +922,7 @@ func isASCII(s string) bool {
 // independent expectations
 
 type expectedDiag struct {
+	endLine1   pos // end of the span clipped to its first line (what a single-line range shows)
 	msg        string
 	syntax     bool // an (unrecovered) syntax error: any message mentioning it matches
 	hasRange   bool
@@ -902,6 +949,12 @@ func expectedDiagnostics(filename, text string) []expectedDiag {
 			sl, sc := offsetToPos(text, o.Offset)
 			el, ec := offsetToPos(text, o.EndOffset)
 			e.start, e.end = pos{sl, sc}, pos{el, ec}
+			clip := o.EndOffset
+			if nl := strings.IndexByte(text[o.Offset:o.EndOffset], '\n'); nl >= 0 {
+				clip = o.Offset + nl
+			}
+			cl, cc := offsetToPos(text, clip)
+			e.endLine1 = pos{cl, cc}
 		}
 		out = append(out, e)
 	}
@@ -1193,7 +1246,9 @@ func (st *runState) checkPublish(params json.RawMessage) {
 				continue
 			}
 			sameMsg = x
-			if !x.hasRange || d.Range.Start == x.start && !posLess(x.end, d.Range.End) {
+			// both ends are UTF-16 positions of the error's byte span; a span that crosses a
+			// newline may be shown clipped to its first line
+			if !x.hasRange || d.Range.Start == x.start && (d.Range.End == x.end || d.Range.End == x.endLine1) {
 				used[j] = true
 				found = true
 				break
@@ -1214,6 +1269,11 @@ func (st *runState) checkPublish(params json.RawMessage) {
 		}
 		if lineHasNonASCIIBefore(text, d.Range.Start) {
 			st.res.Probe("diagnostic-after-non-ascii-prefix")
+		}
+		if so, ok1 := posToOffset(text, d.Range.Start.Line, d.Range.Start.Character); ok1 {
+			if eo, ok2 := posToOffset(text, d.Range.End.Line, d.Range.End.Character); ok2 && eo >= so && !isASCII(text[so:eo]) {
+				st.res.Probe("diagnostic-span-contains-non-ascii")
+			}
 		}
 	}
 	if len(p.Diagnostics) > 0 {
@@ -1435,6 +1495,7 @@ func (e *lsEngine) Run(src *sim.Src, log *sim.Log, res *sim.Result) {
 		synctest.Test(e.t, func(t *testing.T) { st.simulate(faultsOn, stall, chunkMode) })
 	}()
 	jsonrpc2.VerifBeforeWrite = nil
+	jsonrpc2.VerifWrapCtx = nil
 	if deadlock != "" && res.Violation == nil {
 		res.Fail("C23.I6", "deadlock", "server goroutines blocked forever: %s", deadlock)
 	}
@@ -1466,6 +1527,7 @@ func (st *runState) simulate(faultsOn bool, stall, chunkMode int) {
 	st.yard = &yard{seq: map[string]int{}}
 	zzStdin, zzStdout = st.in, st.out
 	jsonrpc2.VerifBeforeWrite = st.yard.hook
+	jsonrpc2.VerifWrapCtx = st.yard.wrapCtx
 
 	done := make(chan struct{})
 	go func() {
@@ -1509,7 +1571,19 @@ func (st *runState) simulate(faultsOn bool, stall, chunkMode int) {
 		if faultsOn && !st.eofSent {
 			wFault = 1
 		}
-		switch src.Pick(wDeliver, wRelease, wFault) {
+		// the simulated clock only moves when the simulator says so (synctest): a jump
+		// lets timers of the server (debouncing, timeouts) fire between two protocol events
+		wClock := 0
+		if steps > 0 {
+			wClock = 1
+		}
+		switch src.Pick(wDeliver, wRelease, wFault, wClock) {
+		case 3:
+			d := []time.Duration{time.Millisecond, 50 * time.Millisecond, 300 * time.Millisecond, 2 * time.Second, time.Minute}[src.Draw(5)]
+			log.Printf("clock +%v", d)
+			st.sched = append(st.sched, "t")
+			res.Fault("clock-jump")
+			time.Sleep(d)
 		case actDeliver:
 			st.deliver(chunkMode, parkedNow)
 		case actRelease:
@@ -1523,6 +1597,9 @@ func (st *runState) simulate(faultsOn bool, stall, chunkMode int) {
 			}
 			if len(parkedNow) >= 3 {
 				res.Probe(">=3-writers-parked")
+			}
+			if strings.HasPrefix(p.key, "poll:") {
+				res.Probe("handler-parked-at-parser-poll")
 			}
 			log.Printf("release %s (parked: %d)", p.key, len(parkedNow))
 			st.sched = append(st.sched, "R"+p.key[:1])
@@ -1554,6 +1631,21 @@ func (st *runState) simulate(faultsOn bool, stall, chunkMode int) {
 		synctest.Wait()
 		st.observe()
 		res.Steps++
+	}
+	if res.Violation != nil {
+		st.drain(done)
+		return
+	}
+	// let every pending timer of the server fire, then drain what that produced
+	for i := 0; i < 3 && res.Violation == nil; i++ {
+		time.Sleep(time.Minute)
+		synctest.Wait()
+		for _, p := range st.yard.snapshot() {
+			log.Printf("tail release %s (after clock jump)", p.key)
+			st.yard.release(p)
+			synctest.Wait()
+		}
+		st.observe()
 	}
 	if res.Violation != nil {
 		st.drain(done)
@@ -1697,8 +1789,8 @@ func (st *runState) deliver(chunkMode int, parkedNow []*parked) {
 	// at it unless the handler chain is blocked (then the call is merely queued).
 	chainBlocked := false
 	for _, p := range parkedNow {
-		if strings.HasPrefix(p.key, "notif:") {
-			chainBlocked = true
+		if strings.HasPrefix(p.key, "notif:") || strings.HasPrefix(p.key, "poll:") {
+			chainBlocked = true // that handler has not replied yet: later requests are queued
 		}
 	}
 	if !chainBlocked {
@@ -1730,6 +1822,15 @@ func (st *runState) deliver(chunkMode int, parkedNow []*parked) {
 			if c := st.sc.calls[id]; c != nil {
 				if st.responses[id] == 0 {
 					st.cancelled[id] = true
+					midBody := false
+					for _, p := range parkedNow {
+						if strings.HasPrefix(p.key, "poll:") && strings.Contains(p.key, fmt.Sprint(o.target)) {
+							midBody = true
+						}
+					}
+					if midBody {
+						st.res.Probe("cancel-hit-call-parked-at-a-parser-poll")
+					}
 					if chainBlocked {
 						st.res.Probe("cancel-hit-queued-call")
 					} else {
